@@ -104,7 +104,12 @@ CASES = [
       loops={'L1': LoopSpec(inv=["forall(lambda i: implies(0 <= i and i < _i, xs[i] != t))"]), 'L2': LoopSpec(inv=["found == 0"])}),
     C('empty_set_truth', lambda cx: dict(xs=cx.val('xs', IS)),
       good=["(result == 0) == (len(xs) == 0)"], bad=["result == 1", "result == 0"]),
+    C('lookup_all', lambda cx: dict(d=cx.val('d', TMap(TInt, TInt)), xs=cx.val('xs', IS)),
+      good=["len(result) == len(xs)", "forall(lambda j: implies(0 <= j and j < len(xs), result[j] == d[xs[j]]))"], bad=["len(result) == 0"],
+      raises={'KeyError': ["exists(lambda j: 0 <= j and j < len(xs) and not (xs[j] in d))"]}),
 ]
+# exceptions that must be seen: (case, exception) - without the raises clause the safety obligation has to fail
+MUST_RAISE = [('lookup_all', 'KeyError'), ('pop_middle', 'IndexError')]
 
 
 def contract_of(case, ensures):
@@ -218,6 +223,12 @@ def main():
             r = verify(contract_of(case, [b]), [], timeout_ms=800)
             if r.error or all(o['status'] == 'unsat' for o in r.obligations if o['name'].startswith('post')):
                 failures.append('%s: the false postcondition %r was %s' % (case['name'], b, 'proved (UNSOUND)' if not r.error else 'not decided: ' + r.error))
+    for cname, exc in MUST_RAISE:
+        case = dict([c for c in CASES if c['name'] == cname][0])
+        case['raises'] = {}
+        r = verify(contract_of(case, case['good']), [], timeout_ms=800)
+        if r.error or not any(o['name'].startswith('safety:no-' + exc) and o['status'] != 'unsat' for o in r.obligations):
+            failures.append('%s: a possible %s was not seen (UNSOUND): %s' % (cname, exc, r.error))
     runs, bad = differential(random.Random(int(os.environ.get('VERIF_SEED', '0') or 0)), int(os.environ.get('SELFTEST_N', '25')))
     for name, args, want, got in bad[:10]:
         failures.append('differential %s%r: CPython %r, interpreter %r' % (name, args, want, got))
